@@ -142,11 +142,12 @@ def parse_terse(out):
     return res
 
 
-def _limit_memory():
-    """every cbmc / solver process of a harness runs under a 20 GB address-space limit: exceeding it
-    makes the harness undecided instead of endangering the machine"""
+def _limit_memory(gb=None):
+    """every cbmc / solver process of a harness runs under an address-space limit (20 GB by default,
+    more for the groups listed in GROUP_MEM_GB, which run alone): exceeding it makes the harness
+    undecided instead of endangering the machine"""
     import resource
-    lim = int(os.environ.get("VERIF_KANI_MEM_GB", "20")) * (1 << 30)
+    lim = int(gb or os.environ.get("VERIF_KANI_MEM_GB", "20")) * (1 << 30)
     resource.setrlimit(resource.RLIMIT_AS, (lim, lim))
 
 
@@ -158,7 +159,7 @@ def _kill_session(pgid):
         pass
 
 
-def run_harnesses(wc, harnesses, outdir, jobs=8, extra_env=None, solver_cli=None, extra_args=None, tag="main"):
+def run_harnesses(wc, harnesses, outdir, jobs=8, extra_env=None, solver_cli=None, extra_args=None, tag="main", mem_gb=None):
     """Run the given harness specs in working copy `wc` with ONE cargo-kani invocation
     (`-j`, terse output, per-harness timeout).  Returns {harness path: result-dict}."""
     os.makedirs(outdir, exist_ok=True)
@@ -187,7 +188,7 @@ def run_harnesses(wc, harnesses, outdir, jobs=8, extra_env=None, solver_cli=None
     os.makedirs(tmpdir, exist_ok=True)
     env["TMPDIR"] = tmpdir
     p = subprocess.Popen(cmd, cwd=wc, env=env, stdout=subprocess.PIPE, stderr=subprocess.PIPE, text=True,
-                         preexec_fn=_limit_memory, start_new_session=True)
+                         preexec_fn=(lambda: _limit_memory(mem_gb)), start_new_session=True)
     try:
         so, se = p.communicate(timeout=timeout * rounds + 900)
         out = so + "\n" + se
@@ -236,8 +237,11 @@ def run_harnesses(wc, harnesses, outdir, jobs=8, extra_env=None, solver_cli=None
 # extra cargo-kani arguments per group.  "safe_rust": the harness only exercises safe Rust, whose
 # pointer validity CBMC need not re-check (bounds checks, unwraps, overflow panics are explicit in MIR
 # and stay checked) -- this shrinks the formula of the iterator-heavy import harnesses several times.
-GROUP_ARGS = {"safe_rust": ["--no-memory-safety-checks"]}
-GROUP_JOBS = {"safe_rust": 2}
+GROUP_ARGS = {"safe_rust": ["--no-memory-safety-checks"], "safe_rust_big": ["--no-memory-safety-checks"]}
+GROUP_JOBS = {"safe_rust": 2, "safe_rust_big": 1}
+# groups whose harnesses need more than the default limit: one harness at a time, and only after every
+# other group has finished (the machine has 62 GB and no swap)
+GROUP_MEM_GB = {"safe_rust_big": 45}
 
 
 def run_grouped(wc, harnesses, outdir, jobs=8):
@@ -251,8 +255,13 @@ def run_grouped(wc, harnesses, outdir, jobs=8):
     per = max(1, jobs // max(1, len(groups)))
     # memory-hungry groups (about 10 GB per harness) run at most two harnesses at a time
     per_group = {g: min(per, GROUP_JOBS.get(g, per)) for g in groups}
-    with ThreadPoolExecutor(max_workers=len(groups)) as ex:
-        futs = {g: ex.submit(run_harnesses, wc, hs, outdir, per_group[g], None, None, GROUP_ARGS.get(g), g) for g, hs in groups.items()}
-        for g, f in futs.items():
-            results.update(f.result())
+    normal = {g: hs for g, hs in groups.items() if g not in GROUP_MEM_GB}
+    if normal:
+        with ThreadPoolExecutor(max_workers=len(normal)) as ex:
+            futs = {g: ex.submit(run_harnesses, wc, hs, outdir, per_group[g], None, None, GROUP_ARGS.get(g), g) for g, hs in normal.items()}
+            for g, f in futs.items():
+                results.update(f.result())
+    for g, hs in groups.items():
+        if g in GROUP_MEM_GB:
+            results.update(run_harnesses(wc, hs, outdir, 1, None, None, GROUP_ARGS.get(g), g, GROUP_MEM_GB[g]))
     return results
